@@ -554,3 +554,141 @@ Proof.
   split; [apply WP.find_doc_self; assumption|]. split; [reflexivity|]. split; [exact HL|].
   exact (table_syms_wf L b (snd d) T s HW HT Hs).
 Qed.
+
+(* ========================================================================================== *)
+(* (c) hierarchy items                                                                         *)
+(* ========================================================================================== *)
+
+(* the item names a document of the workspace (its uri is that document's stem), both ranges are well formed
+   within that document's line count, the selection range lies inside the range *)
+Definition ItemWf (ws : H.wsT) (Ls : list N) (it : H.item) : Prop :=
+  exists d' L, H.doc_of ws (upper (H.i_uri it)) = Some d' /\ fst d' = H.i_uri it /\ In (d', L) (combine ws Ls) /\
+    RangeIn L (H.i_sel it) /\ RangeIn L (H.i_range it) /\ inside (H.i_sel it) (H.i_range it).
+
+Lemma WsWf_in ws Ls d : WsWf ws Ls -> In d ws -> exists L, In (d, L) (combine ws Ls) /\ WfTree L (snd d).
+Proof.
+  intro Hw. induction Hw as [|x L ws Ls Hx _ IH]; intro Hd; [destruct Hd|]. cbn [combine]. destruct Hd as [->|Hd].
+  - exists L. split; [left; reflexivity|exact Hx].
+  - destruct (IH Hd) as (L' & A & B). exists L'. split; [right; exact A|exact B].
+Qed.
+
+(* the guard, as for links: the class index sends the for_class_or_module of every (non-empty) table of a
+   document back to that document, or nowhere *)
+Definition TablesAtHomeH (ws : H.wsT) : Prop :=
+  forall d T d', In d ws -> In T (tables_of false (snd d)) -> t_syms T <> [] ->
+    H.doc_of ws (upper (cls_str T)) = Some d' -> d' = d.
+
+Lemma doc_of_found ws k d : H.doc_of ws k = Some d -> In d ws /\ k = upper (fst d) /\ H.doc_of ws (upper (fst d)) = Some d.
+Proof.
+  intro Hf. pose proof Hf as Hf'. unfold H.doc_of in Hf. apply find_some in Hf as [A B]. apply str_eqb_eq in B.
+  split; [exact A|]. split; [symmetry; exact B|]. rewrite B. exact Hf'.
+Qed.
+
+Lemma item_for_shape ws stem cls a l : H.item_for ws stem cls a = H.ROk l ->
+  l = [] \/ exists it, l = [it] /\ H.i_sel it = a_sel a /\ H.i_range it = a_range a /\
+    ((H.i_uri it = stem /\ H.doc_of ws (upper cls) = None) \/ exists d', H.doc_of ws (upper cls) = Some d' /\ H.i_uri it = fst d').
+Proof.
+  unfold H.item_for, H.class_uri.
+  destruct (a_kind a); destruct (H.doc_of ws (upper cls)) as [d'|]; intro E; inversion E; subst; auto;
+    right; eexists; (split; [reflexivity|]); cbn [H.i_sel H.i_range H.i_uri]; (split; [reflexivity|]); (split; [reflexivity|]); eauto.
+Qed.
+
+(* items of prepare_type_hierarchy *)
+Theorem prepare_items_wf ws Ls d p l :
+  WsWf ws Ls -> In d ws -> HP.distinct_stems ws -> TablesAtHomeH ws ->
+  H.prepare ws d p = Ans (H.ROk l) -> Forall (ItemWf ws Ls) l.
+Proof.
+  intros Hw Hd Hnd Hg. unfold H.prepare. cbv zeta. destruct (negb (flat_methods (snd d))); [discriminate|].
+  destruct (chain_for (snd d) (descend p (snd d))) as [ch|] eqn:Ec; [|discriminate].
+  destruct (path_up p (snd d)) as [|[idx enc] up]; [discriminate|].
+  destruct (H.right_of_dot idx up); [discriminate|].
+  destruct (lookup ch (nident enc)) as [[T a]|] eqn:El;
+    [|destruct (foreign (snd d)); [discriminate|intro E; inversion E; constructor]].
+  intro E. assert (Hi : H.item_for ws (fst d) (cls_str T) a = H.ROk l) by congruence. clear E.
+  destruct (lookup_In _ _ _ _ El) as [HT Ha]. apply (chain_for_tables _ _ _ Ec) in HT.
+  destruct (item_for_shape _ _ _ _ _ Hi) as [->|(it & -> & E1 & E2 & Hu)]; [constructor|].
+  constructor; [|constructor].
+  destruct (WsWf_in _ _ _ Hw Hd) as (L & HL & HW).
+  destruct (table_syms_wf L false (snd d) T a HW HT Ha) as (S1 & S2 & S3).
+  assert (H.doc_of ws (upper (H.i_uri it)) = Some d /\ fst d = H.i_uri it) as [U1 U2].
+  { destruct Hu as [[Eu _]|(d' & Hd' & Eu)].
+    - rewrite Eu. split; [apply HP.doc_of_unique; assumption|reflexivity].
+    - assert (d' = d) as -> by (eapply Hg; try eassumption; intro X; rewrite X in Ha; destruct Ha).
+      rewrite Eu. split; [apply HP.doc_of_unique; assumption|reflexivity]. }
+  exists d, L. rewrite E1, E2. auto 10.
+Qed.
+
+(* class items of the walkers: no guard (the document is found by the class name and the item carries its stem) *)
+Lemma class_item_wf ws Ls k l : WsWf ws Ls -> H.class_item ws k = Ans l -> Forall (ItemWf ws Ls) l.
+Proof.
+  intros Hw. unfold H.class_item. destruct (H.doc_of ws k) as [d|] eqn:Ed; [|intro E; inversion E; constructor].
+  destruct (doc_of_found _ _ _ Ed) as (Hd & _ & Hu).
+  destruct (find_in (H.root_of d) k) as [a|] eqn:Ef;
+    [|destruct (foreign_parent (snd d)); [discriminate|intro E; inversion E; constructor]].
+  intro E; inversion E. constructor; [|constructor].
+  destruct (WsWf_in _ _ _ Hw Hd) as (L & HL & HW).
+  destruct (table_syms_wf L false (snd d) (H.root_of d) a HW (root_table_in false (snd d)) (find_in_In _ _ _ Ef)) as (S1 & S2 & S3).
+  exists d, L. cbn [H.i_uri H.i_sel H.i_range]. auto 10.
+Qed.
+
+Lemma class_items_wf ws Ls : WsWf ws Ls -> forall ks l, H.class_items ws ks = Ans l -> Forall (ItemWf ws Ls) l.
+Proof.
+  intros Hw. induction ks as [|k r IH]; intros l; cbn [H.class_items]; [intro E; inversion E; constructor|].
+  destruct (H.class_item ws k) as [|x] eqn:E1; [discriminate|]. destruct (H.class_items ws r) as [|y]; [discriminate|].
+  intro E; inversion E. apply Forall_app. split; [eapply class_item_wf; eassumption|apply IH; reflexivity].
+Qed.
+
+(* member items of the walkers: the uri is the document of the root table's for_class_or_module *)
+Lemma member_item_wf ws Ls it k : WsWf ws Ls -> TablesAtHomeH ws -> Forall (ItemWf ws Ls) (H.member_item ws it k).
+Proof.
+  intros Hw Hg. unfold H.member_item. destruct (H.doc_of ws k) as [d|] eqn:Ed; [|constructor].
+  destruct (doc_of_found _ _ _ Ed) as (Hd & _ & _).
+  destruct (find_in (H.root_of d) (H.i_name it)) as [a|] eqn:Ef; [|constructor].
+  destruct (H.doc_of ws (upper (cls_str (H.root_of d)))) as [d'|] eqn:Ed'; [|constructor].
+  pose proof (find_in_In _ _ _ Ef) as Ha.
+  assert (d' = d) as ->.
+  { eapply Hg; [exact Hd|apply (root_table_in false (snd d))| |exact Ed']. intro X. unfold H.root_of in Ha. rewrite X in Ha. destruct Ha. }
+  destruct (doc_of_found _ _ _ Ed') as (_ & _ & Hu).
+  constructor; [|constructor].
+  destruct (WsWf_in _ _ _ Hw Hd) as (L & HL & HW).
+  destruct (table_syms_wf L false (snd d) (H.root_of d) a HW (root_table_in false (snd d)) Ha) as (S1 & S2 & S3).
+  exists d, L. cbn [H.i_uri H.i_sel H.i_range]. auto 10.
+Qed.
+
+Theorem supertypes_items_wf ws Ls tr it l :
+  WsWf ws Ls -> TablesAtHomeH ws -> H.supertypes_of ws tr it = Ans (H.ROk l) -> Forall (ItemWf ws Ls) l.
+Proof.
+  intros Hw Hg. unfold H.supertypes_of. destruct (H.i_kind it).
+  - destruct (H.class_items ws _) as [|x] eqn:E1; [discriminate|]. intro E; inversion E; subst x. eapply class_items_wf; eassumption.
+  - destruct (H.class_of_item ws it) as [c|]; [|discriminate].
+    destruct (Forest.member_supertypes _ _ _ _) as [[q|]| |]; intro E; inversion E; try constructor. apply member_item_wf; assumption.
+  - destruct (H.class_of_item ws it) as [c|]; [|discriminate].
+    destruct (Forest.member_supertypes _ _ _ _) as [[q|]| |]; intro E; inversion E; try constructor. apply member_item_wf; assumption.
+Qed.
+
+Theorem subtypes_items_wf ws Ls tr it l :
+  WsWf ws Ls -> TablesAtHomeH ws -> H.subtypes_of ws tr it = Ans (H.ROk l) -> Forall (ItemWf ws Ls) l.
+Proof.
+  intros Hw Hg. unfold H.subtypes_of.
+  assert (G : forall ps, Forall (ItemWf ws Ls) (flat_map (fun q => H.member_item ws it (Forest.key_of tr q)) ps)).
+  { intro ps. apply ReportProofs.Forall_flat_map. intros q _. apply member_item_wf; assumption. }
+  destruct (H.i_kind it).
+  - destruct (H.class_items ws _) as [|x] eqn:E1; [discriminate|]. intro E; inversion E; subst x. eapply class_items_wf; eassumption.
+  - destruct (H.class_of_item ws it) as [c|]; [|discriminate].
+    destruct (Forest.member_subtypes _ _ _ _) as [ps| |]; intro E; inversion E. apply G.
+  - destruct (H.class_of_item ws it) as [c|]; [|discriminate].
+    destruct (Forest.member_subtypes _ _ _ _) as [ps| |]; intro E; inversion E. apply G.
+Qed.
+
+(* hierarchy_items_wf: the three requests in one statement *)
+Theorem hierarchy_items_wf ws Ls :
+  WsWf ws Ls -> HP.distinct_stems ws -> TablesAtHomeH ws ->
+  (forall d p l, In d ws -> H.prepare ws d p = Ans (H.ROk l) -> Forall (ItemWf ws Ls) l) /\
+  (forall tr it l, H.supertypes_of ws tr it = Ans (H.ROk l) -> Forall (ItemWf ws Ls) l) /\
+  (forall tr it l, H.subtypes_of ws tr it = Ans (H.ROk l) -> Forall (ItemWf ws Ls) l).
+Proof.
+  intros Hw Hnd Hg. split; [|split].
+  - intros d p l Hd Hp. eapply prepare_items_wf; eassumption.
+  - intros tr it l. apply supertypes_items_wf; assumption.
+  - intros tr it l. apply subtypes_items_wf; assumption.
+Qed.
